@@ -39,10 +39,13 @@ def stateLine (d : DSt) : String :=
   let s := d.s
   s!"st bmoff={s.bmoff} bmlen={s.bmlen} lf={s.lfoff},{s.lflen} fsize={s.fsize} crz={s.stats.num},{s.stats.sum},{s.stats.var} tree={extStr s.tree} runs={extStr (runs s.bits)} live=ok"
 
-/-- address operand: `N`, `#j`, `#j+N`, `bm+N`, `end+N` -/
+/-- address operand: `N`, `#j`, `#j+N`, `#j-N`, `bm+N`, `end+N` -/
 def addrSpec (d : DSt) (w : String) : Nat :=
   match w.splitOn "+" with
-  | [a] => base a
+  | [a] =>
+    match w.splitOn "-" with
+    | [a, b] => base a - natArg b
+    | _ => base a
   | [a, b] => base a + natArg b
   | _ => 0
 where
@@ -125,12 +128,14 @@ def step (d : DSt) (ws : List String) : DSt × String :=
       | none => (d, "realloc none")
       | some i =>
         let r := d.live[i]!
+        -- without pattern bytes the harness first makes the old region file-backed (copying from past EOF is C12's subject)
+        let d := if d.pat then d else { d with s := ensureSize d.s (r.addr + r.len) }
         let (s, rc, addr, len, _) := reallocate floatHeur d.s (natArg nlen) r.addr r.len (Flags.ofNat (natArg flags))
         let d := { d with s := s }
         if rc = .ok then
           let d := if len = 0 then { d with live := d.live.eraseIdx! i } else { d with live := d.live.set! i ⟨addr, len⟩ }
-          (patWrite d addr len, s!"realloc 0 {addr} {len} pat=ok bm={s.bmoff},{s.bmlen}")
-        else (d, s!"realloc {rc.name} {r.addr} {r.len} pat=ok bm={s.bmoff},{s.bmlen}")
+          (patWrite d addr len, s!"realloc 0 {r.addr} {r.len} {addr} {len} pat=ok bm={s.bmoff},{s.bmlen}")
+        else (d, s!"realloc {rc.name} {r.addr} {r.len} {r.addr} {r.len} pat=ok bm={s.bmoff},{s.bmlen}")
     | ["rawrealloc", a, olen, nlen, flags] =>
       let (s, rc, addr, len, _) := reallocate floatHeur d.s (natArg nlen) (addrSpec d a) (natArg olen) (Flags.ofNat (natArg flags))
       ({ d with s := s }, if rc = .ok then s!"rawrealloc 0 {addr} {len}" else s!"rawrealloc {rc.name} 0 0")
